@@ -552,6 +552,9 @@ OPNMIDI_EXPORT int opn2_openFile(OPN2_MIDIPlayer *device, const char *filePath)
             play->setErrorString("OPN2 MIDI: Can't load file: no file name given");
             return -1;
         }
+        // The pending audio period belongs to the song that is being replaced
+        play->m_setup.delay = 0.0;
+        play->m_setup.carry = 0.0;
         play->m_setup.tick_skip_samples_delay = 0;
         if(!play->LoadMIDI(filePath))
         {
@@ -579,6 +582,9 @@ OPNMIDI_EXPORT int opn2_openData(OPN2_MIDIPlayer *device, const void *mem, unsig
         MidiPlayer *play = GET_MIDI_PLAYER(device);
         assert(play);
 #ifndef OPNMIDI_DISABLE_MIDI_SEQUENCER
+        // The pending audio period belongs to the song that is being replaced
+        play->m_setup.delay = 0.0;
+        play->m_setup.carry = 0.0;
         play->m_setup.tick_skip_samples_delay = 0;
         if(!play->LoadMIDI(mem, static_cast<size_t>(size)))
         {
